@@ -18,6 +18,7 @@ import CSD.Generated.Dispatch
 import CSD.Lemmas.PFCLoad
 import CSD.Lemmas.PFCMeta
 import CSD.Lemmas.RPDACImage
+import CSD.Lemmas.RPFCImage
 
 namespace CSD.Props.C06
 open CSD.Generated
@@ -120,5 +121,20 @@ theorem rpdac_image_reloads (d : RPDACImg.Img) (wf : RPDACImg.WF d) (henc : d.rp
 /-- The RPDAC loader refuses every other type tag. -/
 theorem rpdac_loader_refuses_foreign (t : Nat) (ht : t < 2 ^ 32) (hne : t ≠ 3) (rest : List UInt8) :
     RPDACImg.load 3 124 (LogSeq.leBytes t 4 ++ rest) = none := RPDACImg.load_foreign 3 124 t ht hne rest
+
+
+/-! ### RPFC image -/
+
+/-- `StringDictionaryRPFC::load (save d ++ rest) = (d, rest)` on bytes: tag, counters, the text (plain headers
+and bit-packed Re-Pair symbols), the positional index, the symbol width and the grammar header
+(`RePair::save(out)` / `loadNoSeq`). The driver parses every real RPFC image with this loader and lets the model
+cut the buckets and unpack the symbols (`RPFCImg.toD`): the result must be the object the query-layer theorems
+are applied to. -/
+theorem rpfc_image_reloads (d : RPFCImg.Img) (wf : RPFCImg.WF d) (rest : List UInt8) :
+    RPFCImg.load 214 (RPFCImg.save 214 d ++ rest) = some (d, rest) :=
+  RPFCImg.load_save 214 (by decide) d wf rest
+
+theorem rpfc_loader_refuses_foreign (t : Nat) (ht : t < 2 ^ 32) (hne : t ≠ 214) (rest : List UInt8) :
+    RPFCImg.load 214 (LogSeq.leBytes t 4 ++ rest) = none := RPFCImg.load_foreign 214 t ht hne rest
 
 end CSD.Props.C06
